@@ -153,12 +153,17 @@ func VerifC13Roots() {
 		return false
 	}
 	visited := map[string]int{}
+	ropts := []func(*Options){WithRootNodesAndDown([]string{root})}
+	if vrtChoice("reverse", 2) == 1 {
+		// the set of visited services does not depend on the direction
+		ropts = append(ropts, InReverseOrder)
+	}
 	err := InDependencyOrder(context.Background(), p, func(ctx context.Context, name string, s types.ServiceConfig) error {
 		vrtLock()
 		visited[name]++
 		vrtUnlock()
 		return nil
-	}, WithRootNodesAndDown([]string{root}))
+	}, ropts...)
 	vrtAssert("roots-walk-succeeds", err == nil)
 	for _, n := range []string{"a", "b", "c"} {
 		want := 0
